@@ -8,7 +8,14 @@
 //	                     and starts the real loader (silence.New / nflog.New with SnapshotFile).
 //	TestRoundTrip    (c) store shapes x sizes written by the real Snapshot, loaded by the real New.
 //	TestPrefixCuts   (d) every prefix of a snapshot presented to the real loader.
-//	TestHelperSnapshot   the child of (a) (selected by the environment variable C11_HELPER).
+//	TestReplay       (e) (c11_store_test.go) behaviours of spec/SnapshotStore.tla - API writes that add
+//	                     an id and writes that change an existing record in place, maintenance passes
+//	                     on tick and on shutdown, kill, restart - on the real stores with the real
+//	                     Maintenance goroutine and the real loader.
+//	TestHelperSnapshot   the child of (a) (selected by the environment variable C11_HELPER); scenarios
+//	                     wfail_* make a snapshot write fail for real (RLIMIT_FSIZE -> EFBIG): fault
+//	                     WriteFail of spec/Snapshot.tla; TestRecordOps then starts the real loader on
+//	                     what the real Maintenance left behind (f).
 package c11
 
 import (
@@ -89,8 +96,8 @@ type handle interface {
 	proj() (map[string]string, []string) // key -> projection of every stored record, problems
 	snapshot(w io.Writer) (int64, error)
 	maintenance(interval time.Duration, snapf string, stopc <-chan struct{})
-	probe(r rec) string // "" if the record still has its effect (mutes / is returned by Query)
-	mutate(i int) error // one API write (used between snapshots)
+	probe(r rec) string            // "" if the record still has its effect (mutes / is returned by Query)
+	mutate(i int) error            // one API write (used between snapshots)
 	maint() (passes, errs float64) // maintenance passes run / failed (the store's own metrics)
 }
 
@@ -787,7 +794,7 @@ type recording struct {
 	StraceErr   string   `json:"strace_err,omitempty"`
 	Raw         []string `json:"raw"`
 	Ops         []absOp  `json:"ops"`
-	Recs        []int    `json:"recs"` // records per generation in the model (index 0 = snapshot on disk before)
+	Recs        []int    `json:"recs"`   // records per generation in the model (index 0 = snapshot on disk before)
 	Failed      []int    `json:"failed"` // generations whose write failed
 	FaultWanted bool     `json:"fault_wanted"`
 	ShapeErrors []string `json:"shape_errors"`
